@@ -5,6 +5,33 @@ CAFS_TRUSTED = ["BLAKE2b: the Lean implementation (Model/Blake2b.lean) equals mi
                 "harness/internal/memstore as the blob store contract"]
 
 PROPS = {
+    "C10": {
+        "sub": "c10",
+        "trivial": r"^squash .* repo=0 |^sv ",
+        "level_text": "Proof: C10_squash_exact (for every well-formed repository, every N and every retain option: the committed bundles after "
+                      "the squash are exactly the N most recent ones and those retained by a label / semver label; each keeps every metadata "
+                      "key; every other bundle loses every key; the remaining labels are exactly those that did not point at a removed "
+                      "bundle), C10_squash_keeps_latest (no hypothesis on the repository: leftovers of interrupted uploads anywhere), "
+                      "C10_deleteBundle_terminates (the delete loop ends on every store). The listing by key only and the unguarded loop of "
+                      "the code before the fix: commits are refuted (C10_neg_*, C10_oldloop_diverges_silent). The model is tied to pkg/core by "
+                      "call-site facts regenerated on every run and by histories built with the real upload code killed at every mutating "
+                      "store call, squashed by the real RepoSquash and compared with the model.",
+        "level_note": "Trusted: Lean kernel, the facts translator, the harness, the reference store (memstore, both Delete conventions). "
+                      "RepoSquash/DeleteBundle are modelled (hand-written functional model), not verified directly; store errors other than "
+                      "'missing key' and concurrent writers during a squash are not modelled; 'downloadable with unchanged content' is the "
+                      "theorem that every metadata key of a kept bundle is unchanged plus the extracted fact that squash never calls the blob "
+                      "store, and is observed by downloading every kept bundle before and after.",
+        "trusted": ["github.com/blang/semver ParseTolerant decides what a semver label is: its verdict for every label name is an input of the model",
+                    "KSUID order of bundle ids = order of creation (ids are built from chosen times)"],
+        "assumptions": ["WF: index files of a committed bundle are numbered below its descriptor's count; labels point at ids that have keys",
+                        "no store error other than 'key does not exist'; no concurrent upload or squash while a squash runs",
+                        "at most one page of bundles/labels per listing batch (paging is C07/C08)"],
+        "rule": "one evaluation = one repository history (0..40 real uploads, some killed at a chosen mutating store call, labels) dumped from "
+                "the stores, squashed by core.RepoSquash and compared with the Lean model: ok/err/hang class, committed bundles, labels of "
+                "committed bundles, download of every kept bundle vs. a pre-squash copy; the sv lines (semver recogniser, auxiliary) are "
+                "evaluations without compared content; distinct = distinct state + squash options; squash of a missing repository is trivial",
+        "timeout_quick": 900, "timeout_thorough": 3000,
+    },
     "C05": {
         "sub": "c05",
         "trivial": r"^(diff|update) store=\w+ nA=0 nB=0 ",
